@@ -305,10 +305,10 @@ Proof.
     assert (Hnf : server_read file o n k false <> RFail)
       by (unfold server_read; cbn; destruct (zlen file <=? o); discriminate).
     split; [split|].
-    + destruct (server_read file o n k false) as [d| |] eqn:Er; cbn; try exact Hb.
-      apply buf_ok_set; [exact Hb|]. eapply server_data_valid; eauto.
+    + unfold server_read; cbn. destruct (zlen file <=? o) eqn:El; [exact Hb|].
+      apply buf_ok_set; [exact Hb|]. apply valid_slice; lia.
     + apply deliver_wire. exact Hw.
-    + destruct (server_read file o n k false); [| |congruence]; repeat split; cbn; auto.
+    + unfold server_read; cbn. destruct (zlen file <=? o); repeat split; cbn; auto.
 Qed.
 
 Lemma same_file_refl s : same_file s s.
